@@ -119,13 +119,17 @@ PROPS['C01'] = {
 }
 PROPS['C03'] = {
     'group': 'plss', 'level': 'proof', 'build_timeout': 2400,
-    'explanation': 'PARTIAL. Proved for all texts/settings: every successful parse stages at least one tract component (the copy_all stand-in) and yields exactly one tract per section named, '
-                   'illegal default directions raise DefaultNSError/DefaultEWError. Totality of the regex-driven steps for EVERY text (C03_sec_step_total, C03_lot_step_total, C03_sec_unpacker_total, C03_lot_unpacker_total, '
-                   'C03_unpack_twprge_total): the number group of the section/lot list patterns is set on every path and holds a non-empty string of decimal digits that int() accepts, so no TypeError/ValueError; '
-                   'SecUnpacker raises nothing; unpacking a twprge_regex match raises only the documented default-direction errors (no TypeError/IndexError/KeyError) -- all read off the regenerated patterns by '
-                   'the verified static analyses of Engine/RegexStatic.v (always_set, always_any, group_body, ms_minw, ms_chars). Not proved: the remaining Raise sites (marker walk, lot acreages, tract '
-                   'parser, loop bounds); that part is decided on each run by '
-                   'the soup/damaged-text x random-configuration oracle (no exception, >= 1 tract, documented rejection classes) and by comparing exception classes model vs code. ' + _PLSS_TIE,
+    'explanation': 'PARTIAL (one named gap). Proved for all texts/settings: every successful parse stages at least one tract component and yields exactly one tract per section named; '
+                   'illegal default directions raise DefaultNSError/DefaultEWError. TOTALITY, for EVERY text: (1) C03_tract_parser_total -- TractParser (scrubbers, lot and aliquot extraction, lot divisions, '
+                   'aliquot parser) raises nothing under any valid depth setting: the groups read are set on every path of the regenerated patterns (always_set/always_any), aliquots_through never '
+                   'exceeds the number of lots, every block cut out by aliquot_unpacker_regex is a string of clean halves/quarters (Engine/RegexLang.v: the language of the pattern bounds what the '
+                   'executable matcher consumes) so every component found in it is one of the eight documented ones and C02_core applies; (2) C03_plss_parser_raises -- PLSSParser (preprocessing with every '
+                   'scrubber pattern and its own group table, chunking, both finders, marker walk, flags, sec_within, construct_tracts) raises nothing but the documented default-direction errors, EXCEPT '
+                   'possibly TypeError in exactly one situation the theorem names: in a chunk of the preprocessed text a Twp/Rge match starts or ends exactly where a section match starts (SEC_END met '
+                   'before any SEC_START: C03_walk_raises + marker provenance). IndexError on sec_nums[0] is excluded by C03_sec_match_has_section, which rests on the completeness of the matcher for '
+                   'look-around-free patterns (Engine/RegexComplete.v: every word of the language that lies ahead is consumed by some path, so the text of a multisec_regex match is found again). '
+                   'NOT proved: that the glued situation cannot arise after preprocessing; it is searched for on each run (glued-token soup; evidence field glued_pp, never non-zero) together with the '
+                   'soup/damaged-text x random-configuration oracle (no exception, >= 1 tract, documented rejection classes) and the comparison of exception classes model vs code. ' + _PLSS_TIE,
 }
 PROPS['C04'] = {
     'group': 'plss', 'level': 'proof', 'build_timeout': 2400,
